@@ -3237,3 +3237,210 @@ def g_feffects(rng, wf=True):
 
 def run_feffects(a, exc_code):
     return run_payload(obj_feffects, lambda o: c_feffects_d(feffects_of_obj(o)), a, {}, {}, wf_feffects(a), exc_code)
+
+
+# ----------------------------------------------------------------------------- Stage 3 (5): typed image resources (Psd/Rsrc.v)
+# rsrc desc: ["table", code 1..12, head, rows] | ["pflags", flags8, pf|None] | ["thumb", v4?, vals7, data] |
+#            ["vinfo", version, has_composite, writer units, reader units, file_version] | ["urls", [[number, id, units]...]] |
+#            ["unicodes", [units...]] | ["pascals", [bytes...]] | ["pstr", bytes]
+RTABLE = {1: "TAlphaIds", 2: "TGroupEnabled", 3: "TGroupInfo", 4: "THalftone", 5: "TTransfer", 6: "TDisplayInfo", 7: "TLayerSel",
+          8: "TGridGuides", 9: "TPrintFlagsInfo", 10: "TResolution", 11: "TPixelAspect", 12: "TPrintScale"}
+RTABLE_CLASS = {1: "AlphaIdentifiers", 2: "LayerGroupEnabledIDs", 3: "LayerGroupInfo", 4: "HalftoneScreens", 5: "TransferFunctions",
+                6: "DisplayInfo", 7: "LayerSelectionIDs", 8: "GridGuidesInfo", 9: "PrintFlagsInfo", 10: "ResoulutionInfo",
+                11: "PixelAspectRatio", 12: "PrintScale"}
+RTABLE_BOOLS = {4: [4, 5]}          # row positions holding '?' fields
+
+
+def coq_rsrc(a):
+    zl = lambda x: coq_list(z, x)
+    t = a[0]
+    if t == "table":
+        return "(RTable %s %s %s)" % (RTABLE[a[1]], zl(a[2]), coq_list(zl, a[3]))
+    if t == "pflags":
+        return "(RPrintFlags %s %s)" % (zl(a[1]), coq_opt(z, a[2]))
+    if t == "thumb":
+        return "(RThumb %s %s)" % (zl(a[2]), coq_bytes(a[3]))
+    if t == "vinfo":
+        return "(RVersionInfo %s %s %s %s %s)" % (z(a[1]), z(a[2]), zl(a[3]), zl(a[4]), z(a[5]))
+    if t == "urls":
+        return "(RUrlList %s)" % coq_list(lambda u: "(%s, %s, %s)" % (z(u[0]), z(u[1]), zl(u[2])), a[1])
+    if t == "unicodes":
+        return "(RUnicodes %s)" % coq_list(zl, a[1])
+    if t == "pascals":
+        return "(RPascals %s)" % coq_list(coq_bytes, a[1])
+    return "(RPascalStr %s)" % coq_bytes(a[1])
+
+
+def c_rsrc_d(a):
+    cz = lambda x: [int(x)]
+    cl = lambda x: c_list(cz, list(x))
+    t = a[0]
+    if t == "table":
+        return [1, a[1]] + cl(a[2]) + c_list(cl, a[3])
+    if t == "pflags":
+        return [2] + cl(a[1]) + c_opt(cz, a[2])
+    if t == "thumb":
+        return [3] + cl(a[2]) + c_bytes(a[3])
+    if t == "vinfo":
+        return [4, a[1], int(a[2])] + cl(a[3]) + cl(a[4]) + [a[5]]
+    if t == "urls":
+        return [5] + c_list(lambda u: [u[0], u[1]] + cl(u[2]), a[1])
+    if t == "unicodes":
+        return [6] + c_list(cl, a[1])
+    if t == "pascals":
+        return [7] + c_list(c_bytes, a[1])
+    return [8] + c_bytes(a[1])
+
+
+def obj_rsrc(a):
+    from psd_tools.psd import image_resources as R
+
+    t = a[0]
+    if t == "table":
+        k, head, rows = a[1], a[2], a[3]
+        if k in (1, 2, 3, 7):
+            return getattr(R, RTABLE_CLASS[k])([r[0] for r in rows])
+        if k == 4:
+            return R.HalftoneScreens([R.HalftoneScreen(r[0] / 0x10000, r[1], r[2] / 0x10000, r[3], bool(r[4]) if r[4] in (0, 1) else r[4],
+                                                       bool(r[5]) if r[5] in (0, 1) else r[5]) for r in rows])
+        if k == 5:
+            return R.TransferFunctions([R.TransferFunction(list(r[:13]), r[13]) for r in rows])
+        if k == 6:
+            return R.DisplayInfo(head[0], [R.AlphaChannel(*r) for r in rows])
+        if k == 8:
+            return R.GridGuidesInfo(head[0], head[1], head[2], [tuple(r) for r in rows])
+        if rows:
+            raise TypeError("no rows in this class")
+        if k == 11:
+            return R.PixelAspectRatio(version=head[0], value=bits_dbl(head[1]))
+        if k == 12:
+            return R.PrintScale(head[0], bits_f32(head[1]), bits_f32(head[2]), bits_f32(head[3]))
+        return getattr(R, RTABLE_CLASS[k])(*head)
+    if t == "pflags":
+        b = lambda v: bool(v) if v in (0, 1) else v
+        return R.PrintFlags(*([b(v) for v in a[1]] + [None if a[2] is None else b(a[2])]))
+    if t == "thumb":
+        return (R.ThumbnailResourceV4 if a[1] else R.ThumbnailResource)(*a[2], bytes(a[3]))
+    if t == "vinfo":
+        return R.VersionInfo(a[1], bool(a[2]) if a[2] in (0, 1) else a[2], units_to_str(a[3]), units_to_str(a[4]), a[5])
+    if t == "urls":
+        return R.URLList([R.URLItem(u[0], u[1], units_to_str(u[2])) for u in a[1]])
+    if t == "unicodes":
+        return R.AlphaNamesUnicode([units_to_str(u) for u in a[1]])
+    if t == "pascals":
+        return R.AlphaNamesPascal([bytes(n).decode("macroman") for n in a[1]])
+    return R.PascalString(bytes(a[1]).decode("macroman"))
+
+
+def rsrc_of_obj(o):
+    import attr
+    from psd_tools.psd import image_resources as R
+
+    n = type(o).__name__
+    inv = {v: k for k, v in RTABLE_CLASS.items()}
+    if n in inv:
+        k = inv[n]
+        if k in (1, 2, 3, 7):
+            return ["table", k, [], [[int(x)] for x in o]]
+        if k == 4:
+            g = lambda x: int(x * 0x10000)
+            return ["table", k, [], [[g(h.freq), h.unit, g(h.angle), h.shape, int(h.use_accurate), int(h.use_printer)] for h in o]]
+        if k == 5:
+            return ["table", k, [], [[int(x) for x in f.curve] + [int(f.override)] for f in o]]
+        if k == 6:
+            return ["table", k, [o.version], [[c.color_space, c.c1, c.c2, c.c3, c.c4, c.opacity, int(c.mode)] for c in o.alpha_channels]]
+        if k == 8:
+            return ["table", k, [o.version, o.horizontal, o.vertical], [[int(x) for x in r] for r in o.data]]
+        if k == 11:
+            return ["table", k, [o.version, dbl_bits(o.value)], []]
+        if k == 12:
+            return ["table", k, [int(o.style), f32_bits(o.x), f32_bits(o.y), f32_bits(o.scale)], []]
+        return ["table", k, [int(x) for x in attr.astuple(o)], []]
+    if n == "PrintFlags":
+        v = list(attr.astuple(o))
+        return ["pflags", [int(x) for x in v[:8]], None if v[8] is None else int(v[8])]
+    if n in ("ThumbnailResource", "ThumbnailResourceV4"):
+        return ["thumb", n.endswith("V4"), [o.fmt, o.width, o.height, o.row, o.total_size, o.bits, o.planes], bytes(o.data)]
+    if n == "VersionInfo":
+        return ["vinfo", o.version, int(o.has_composite), str_to_units(o.writer), str_to_units(o.reader), o.file_version]
+    if n == "URLList":
+        return ["urls", [[u.number, u.id, str_to_units(u.name)] for u in o]]
+    if n == "AlphaNamesUnicode":
+        return ["unicodes", [str_to_units(u) for u in o]]
+    if n == "AlphaNamesPascal":
+        return ["pascals", [u.encode("macroman") for u in o]]
+    if n == "PascalString":
+        return ["pstr", o.value.encode("macroman")]
+    raise KeyError(n)
+
+
+def wf_rsrc(a):
+    t = a[0]
+    b01 = lambda v: v in (0, 1)
+    if t == "table":
+        k = a[1]
+        if k == 6 and not all(r[6] in (0, 1, 2) for r in a[3]):
+            return False
+        if k == 12 and a[2][0] not in (0, 1, 2):
+            return False
+        if k == 4 and not all(b01(r[4]) and b01(r[5]) for r in a[3]):
+            return False
+        return True
+    if t == "pflags":
+        return len(a[1]) == 8 and all(b01(v) for v in a[1]) and (a[2] is None or b01(a[2]))
+    if t == "vinfo":
+        return b01(a[2])
+    return True
+
+
+def g_rsrc(rng, wf=True):
+    u4 = lambda: g_u(rng, 4)
+    u2 = lambda: g_u(rng, 2)
+    u1 = lambda: rng.choice([0, 1, 255, rng.randrange(256)])
+    i4 = lambda: rng.choice([-2 ** 31, -1, 0, 65536, 2 ** 31 - 1, rng.randint(-2 ** 31, 2 ** 31 - 1)])
+    nrows = lambda: rng.choice([0, 1, 2, 3, 7])
+    bit = lambda: rng.choice([0, 1]) if (wf or rng.random() < 0.8) else rng.choice([2, 255])
+    f32 = lambda: rng.choice([0, f32_bits(1.0), f32_bits(-2.5), 0x7F800000, 1, 0x80000000, f32_bits(100.0)])
+    t = rng.randrange(19)
+    if t < 12:
+        k = t + 1
+        if k in (1, 7):
+            return ["table", k, [], [[u4()] for _ in range(nrows())]]
+        if k == 2:
+            return ["table", k, [], [[u1()] for _ in range(nrows())]]
+        if k == 3:
+            return ["table", k, [], [[u2()] for _ in range(nrows())]]
+        if k == 4:
+            return ["table", k, [], [[u4(), u2(), i4(), u2(), bit(), bit()] for _ in range(nrows())]]
+        if k == 5:
+            return ["table", k, [], [[u2() for _ in range(14)] for _ in range(nrows())]]
+        if k == 6:
+            mode = lambda: rng.choice([0, 1, 2]) if (wf or rng.random() < 0.7) else rng.choice([3, 255])
+            return ["table", k, [u4()], [[u2(), u2(), u2(), u2(), u2(), u2(), mode()] for _ in range(nrows())]]
+        if k == 8:
+            return ["table", k, [u4(), u4(), u4()], [[u4(), u1()] for _ in range(nrows())]]
+        if k == 9:
+            return ["table", k, [u2(), u1(), u4(), u2()], []]
+        if k == 10:
+            return ["table", k, [u4(), u2(), u2(), u4(), u2(), u2()], []]
+        if k == 11:
+            return ["table", k, [u4(), g_dbl_bits(rng)], []]
+        return ["table", k, [rng.choice([0, 1, 2]), f32(), f32(), f32()], []]
+    if t == 12:
+        return ["pflags", [bit() for _ in range(8)], rng.choice([None, bit()])]
+    if t == 13:
+        return ["thumb", rng.random() < 0.5, [u4(), u4(), u4(), u4(), u4(), u2(), u2()], bytes(rng.randrange(256) for _ in range(rng.choice([0, 1, 5, 60])))]
+    if t == 14:
+        return ["vinfo", u4(), bit(), g_units16(rng), g_units16(rng), u4()]
+    if t == 15:
+        return ["urls", [[u4(), u4(), g_units16(rng)] for _ in range(nrows())]]
+    if t == 16:
+        return ["unicodes", [g_units16(rng) for _ in range(nrows())]]
+    nm = lambda: bytes(rng.randrange(256) for _ in range(rng.choice([0, 1, 2, 5, 31, 255])))
+    if t == 17:
+        return ["pascals", [nm() for _ in range(nrows())]]
+    return ["pstr", nm()]
+
+
+def run_rsrc(a, exc_code):
+    return run_payload(obj_rsrc, lambda o: c_rsrc_d(rsrc_of_obj(o)), a, {"padding": 1}, {}, wf_rsrc(a), exc_code)
